@@ -120,6 +120,12 @@ def strategy(tier):
                                        ['sub', 'str', 'plain', ['str', 'text']], ['sub', 'bytes', 'plain', ['bytes', '6162']], ['sub', 'str', 'enum', ['str', 'a']]]))
     ghash = st.recursive(gleaf, S['hashable_ext'], max_leaves=5)
 
+    # instances printed as calls with scalar arguments (their arguments sit one level deeper, like those of any call)
+    _parts = stdvals.std_strategy(S)
+    # (naive times only: tzinfo objects print through their repr, which knows no depth)
+    _naive = lambda r: r[:3] + [None] + r[4:]
+    gleaf = st.one_of(gleaf, gleaf, gleaf, _parts['timedelta'], _parts['date'], _parts['time'].map(_naive), _parts['datetime'].map(_naive), _parts['uuid'])
+
     def gext(ch):
         return st.one_of(
             st.lists(ch, max_size=3).map(lambda xs: ['list', xs]),
@@ -145,7 +151,7 @@ def strategy(tier):
     gtree = st.one_of(std_tree, st.recursive(st.one_of(gleaf, std_tree), gext, max_leaves=10))
     generic = st.fixed_dictionaries({
         'v': gtree, 'd': st.one_of(st.none(), st.integers(0, 4), st.integers(0, 9)), 'width': st.sampled_from([20, 79, 200]),
-        'generic': st.just(True)})
+        'generic': st.just(True), 'sort': st.sampled_from([False, False, True])})
     return st.one_of(generic, st.fixed_dictionaries({
         'v': tree,
         'd': st.one_of(st.none(), st.integers(0, 3), st.integers(0, 8)),
@@ -241,6 +247,8 @@ def placeholder_for(full):
         return ast.dump(ast.Call(func=full.func, args=[ast.Constant(value=Ellipsis)], keywords=[]))
     elif isinstance(full, ast.Constant) and type(full.value) in (int, float, str, bytes):
         src = type(full.value).__name__ + '(...)'
+    elif isinstance(full, ast.UnaryOp) and isinstance(full.operand, ast.Call):
+        return placeholder_for(full.operand)        # -datetime.timedelta(days=1): the placeholder carries no sign
     elif isinstance(full, ast.UnaryOp) and isinstance(full.operand, ast.Constant) and type(full.operand.value) in (int, float):
         src = type(full.operand.value).__name__ + '(...)'
     else:
@@ -287,6 +295,11 @@ def children(n, a, b):
             out.append((k, a + 1, b + 1, True))
             out.append((v, a + 1, b + 1, False))
         return out
+    if isinstance(n, ast.UnaryOp) and isinstance(n.operand, ast.Call):
+        return children(n.operand, a, b)
+    if isinstance(n, ast.BinOp):
+        # an arithmetic expression standing for one scalar (timedelta days: 2 * 365 + 5): its operands sit where it sits
+        return [(n.left, a, b, False), (n.right, a, b, False)]
     if isinstance(n, ast.Call):
         if len(n.args) == 1 and not n.keywords and _is_scalar(n.args[0]) and _scalar_wrapper(n.func):
             return []       # Sub(5), Sub('text'): a scalar in the wrapper of its subclass is a leaf, not a container
@@ -342,8 +355,8 @@ def walk_generic(full, cut, a, b, d, iskey=False):
     if a >= d:
         if iskey and a <= d <= b + 1:
             pass
-        elif not children(full, a, b):
-            pass
+        elif not children(full, a, b) or isinstance(full, ast.BinOp):
+            pass        # (an arithmetic expression is no container: its operands are judged one by one)
         else:
             raise Bad('%s is inside at least %d containers (depth %d) but is not a placeholder' % (fd[:80], a, d))
     if type(full) is not type(cut):
@@ -367,10 +380,11 @@ def oracle_generic(case):
     v = values.build(case['v'])
     d = case['d']
     w = case['width']
-    base = values.pp(v, width=w, ribbon_width=w)
+    sort = bool(case.get('sort'))       # the same key order with and without a depth limit
+    base = values.pp(v, width=w, ribbon_width=w, sort_dict_keys=sort)
     if base.exc is not None or base.fallback_warnings():
         return core.viol('unlimited-print-failed', repr(base.exc or base.fallback_warnings()[0])[:300])
-    p = values.pp(v, width=w, ribbon_width=w, depth=d)
+    p = values.pp(v, width=w, ribbon_width=w, depth=d, sort_dict_keys=sort)
     if p.exc is not None:
         return core.viol('pformat-raised', repr(p.exc))
     if p.fallback_warnings():
@@ -401,6 +415,13 @@ def fixed_cases():
         yield {'v': ['std', 'ddict', 'list', [[['str', 'k'], inner]]], 'd': d, 'width': 79, 'generic': True}
         yield {'v': ['std', 'ntuple', 'Point', [inner, ['int', 5]]], 'd': d, 'width': 79, 'generic': True}
         yield {'v': ['call', 'box', [inner], []], 'd': d, 'width': 79, 'generic': True}
+        # str keys out of order under sort_dict_keys; leaves printed as calls (timedelta, date, UUID) at and around the cut
+        unsorted = ['dict', [[['str', 'x'], ['int', 1]], [['str', 'a'], ['list', [['int', 2]]]], [['str', 'm'], ['dict', [[['str', 'z'], ['int', 1]], [['str', 'b'], ['int', 2]]]]]]]
+        yield {'v': unsorted, 'd': d, 'width': 79, 'generic': True, 'sort': True}
+        yield {'v': ['list', [unsorted, ['call', 'box', [], [['a', unsorted]]]]], 'd': d, 'width': 79, 'generic': True, 'sort': True}
+        stdleaves = [['std', 'timedelta', [5, 3, 0]], ['std', 'date', [2020, 1, 2]], ['std', 'uuid', '0' * 31 + '1'], ['std', 'time', [1, 2, 0, 0], None, 0]]
+        yield {'v': ['list', stdleaves + [['list', stdleaves]]], 'd': d, 'width': 79, 'generic': True}
+        yield {'v': ['dict', [[['str', 'k'], ['tuple', stdleaves[:2]]]]], 'd': d, 'width': 200, 'generic': True}
         scal = [['sub', 'int', 'plain', ['int', 5]], ['sub', 'int', 'enum', ['int', 1]], ['sub', 'float', 'plain', ['float', '2.5']], ['sub', 'str', 'plain', ['str', 'text']]]
         yield {'v': ['list', scal + [['list', scal + [['list', scal]]]]], 'd': d, 'width': 79, 'generic': True}
         yield {'v': ['dict', [[scal[0], ['tuple', [scal[1], ['call', 'box', [scal[2]], [['a', scal[3]]]]]]]]], 'd': d, 'width': 79, 'generic': True}
